@@ -56,8 +56,9 @@ impl Monitor for C01 {
                         }
                         add(Denom::Custom(h), o.value.0);
                     }
-                    if tx.kind == TxKind::DoscMint && o.denom == Denom::Erg {
-                        add(Denom::Erg, o.value.0); // the reward bound itself is C18's
+                    if tx.kind == TxKind::DoscMint && o.denom == Denom::Erg && !matches!(ob.verdict.reject, Some(crate::refstf::Reason::BadMint(_))) {
+                        // within the computed reward per RefSTF's independent evaluation of the mint
+                        add(Denom::Erg, o.value.0);
                     }
                 }
             }
@@ -178,6 +179,8 @@ impl Monitor for C01 {
 pub fn profile() -> Profile {
     let mut p = Profile::general();
     p.p_teleport = 1;
+    p.kind_w[7] = 4;
+    p.low_dosc_start = true;
     p
 }
 
